@@ -657,6 +657,8 @@ primaryexpr(struct scope *s)
 		if (d->kind != DECLBUILTIN)
 			e = decay(e);
 		next();
+		if (d->kind == DECLBUILTIN && tok.kind != TLPAREN)
+			error(&tok.loc, "builtin '%s' can only be used in a call", d->name);
 		break;
 	case TSTRINGLIT:
 		e = mkexpr(EXPRSTRING, NULL, NULL);
